@@ -683,7 +683,14 @@ def corpus_keys(tier):
     keys = []
     seen = set()
     gens = list(quick_families())
-    if tier != "quick":
+    if tier == "thorough":
+        # The registered thorough tier is the quick corpus plus the complete
+        # scalar-dummy families (the first four of thorough_families(), 8,981
+        # programs): the only part of the designed thorough corpus that was
+        # run to completion on the final tree.  tier "full" is the designed
+        # 63,604-program corpus (never run in full; see notes/C07.md).
+        gens += list(thorough_families())[:4]
+    elif tier != "quick":
         gens += list(thorough_families())
     for gen in gens:
         for key in gen:
